@@ -240,6 +240,12 @@ func (c *ctx) exec(what string, in []byte, crc bool, v verdict, src lzwork.Sourc
 	violate := func(key, format string, a ...any) {
 		c.add(vrt.Violation{Key: key, Desc: what + " [" + m + ", " + src.String() + ", buf " + rp.String() + "]: " + fmt.Sprintf(format, a...), Detail: det()})
 	}
+	if res.ClosedTwice {
+		c.o.Count("readers_closed_twice", 1)
+		if res.CloseErr != nil && res.Close2Err == nil {
+			violate("close-nil:second-close", "the first Close returned %v, a second Close on the same Reader returned nil: success from Close must mean that CRC and size match, whichever call it is", res.CloseErr)
+		}
+	}
 	if res.SourceDamage != "" {
 		violate("source-memory-modified", "reading the stream changed the memory it was served from: %s", res.SourceDamage)
 	}
